@@ -128,11 +128,11 @@ variable {K : Type} [Field K] [LinearOrder K] [IsStrictOrderedRing K]
 end Gen
 
 /-- evaluation at K = ℚ for the correspondence driver -/
-def Gen.dispatchBox (tbl : FnTable) (name : String) (args : List ℚ) : Option (List ℚ) :=
-  match name, args with
-  | "bbox_includes", [a0, a1, a2, a3, a4, a5] => some ([if Gen.bbox_includes a0 a1 a2 a3 a4 a5 then (1 : ℚ) else 0])
-  | "bbox_overlaps", [a0, a1, a2, a3, a4, a5, a6, a7] => some ([if Gen.bbox_overlaps a0 a1 a2 a3 a4 a5 a6 a7 then (1 : ℚ) else 0])
-  | "bbox_area", [a0, a1, a2, a3] => some (Gen.bbox_area a0 a1 a2 a3)
-  | "bbox_extend_point", [a0, a1, a2, a3, a4, a5] => some (Gen.bbox_extend_point a0 a1 a2 a3 a4 a5)
-  | "bbox_extend_first", [a0, a1] => some (Gen.bbox_extend_first a0 a1)
-  | _, _ => none
+def Gen.dispatchBox (tbl : FnTable) (name : String) (a : List ℚ) : Option (List ℚ) :=
+  match name with
+  | "bbox_includes" => if a.length = 6 then some ([if Gen.bbox_includes (a.getD 0 0) (a.getD 1 0) (a.getD 2 0) (a.getD 3 0) (a.getD 4 0) (a.getD 5 0) then (1 : ℚ) else 0]) else none
+  | "bbox_overlaps" => if a.length = 8 then some ([if Gen.bbox_overlaps (a.getD 0 0) (a.getD 1 0) (a.getD 2 0) (a.getD 3 0) (a.getD 4 0) (a.getD 5 0) (a.getD 6 0) (a.getD 7 0) then (1 : ℚ) else 0]) else none
+  | "bbox_area" => if a.length = 4 then some (Gen.bbox_area (a.getD 0 0) (a.getD 1 0) (a.getD 2 0) (a.getD 3 0)) else none
+  | "bbox_extend_point" => if a.length = 6 then some (Gen.bbox_extend_point (a.getD 0 0) (a.getD 1 0) (a.getD 2 0) (a.getD 3 0) (a.getD 4 0) (a.getD 5 0)) else none
+  | "bbox_extend_first" => if a.length = 2 then some (Gen.bbox_extend_first (a.getD 0 0) (a.getD 1 0)) else none
+  | _ => none
